@@ -15,7 +15,7 @@
      reads r q       := r = Ok (SFloat x) for some x == q
    Floats are exact rationals; == is equality of rationals. *)
 From Coq Require Import ZArith QArith List Bool.
-From RV Require Import Base.Wire Base.NumM Gen.C19Motor Host.Servo Proofs.NumMP Proofs.ServoP.
+From RV Require Import Base.Wire Base.NumM Base.XFloat Gen.C19Motor Host.Servo Host.ActuatorsX Proofs.NumMP Proofs.ServoP Proofs.ActuatorsXP.
 Import ListNotations.
 Local Open Scope Q_scope.
 
@@ -144,6 +144,37 @@ Theorem C19_servo_events : forall s op,
   end.
 Proof. exact ServoP.servo_events. Qed.
 Print Assumptions C19_servo_events.
+
+(* ====================================================================== *)
+(* IEEE specials as calibration bounds (finding F-C19-servo-nonfinite-bound) *)
+(* ====================================================================== *)
+
+(* REFUTED: the constructor's two checks (min >= max) accept bounds that are not finite numbers
+   - every comparison with NaN is False - so "angle and pulse stay within their bounds" fails
+   from the construction on.  Witness: Servo(min_angle=float('nan')). *)
+Theorem C19_servo_bounds_nonfinite_refuted :
+  exists a b c d, servo_bounds_accepted a b c d = true /\
+                  ~ (xfinite a = true /\ xfinite b = true /\ xfinite c = true /\ xfinite d = true).
+Proof. exact ActuatorsXP.servo_bounds_nonfinite_refuted. Qed.
+Print Assumptions C19_servo_bounds_nonfinite_refuted.
+
+(* PARTIAL (guard: the four bounds are finite floats): accepted exactly when min < max on both
+   axes - the hypothesis servo_cfg_ok under which all theorems above are proved *)
+Theorem C19_servo_bounds_partial : forall qa qb qc qd,
+  servo_bounds_accepted (XFin qa) (XFin qb) (XFin qc) (XFin qd) = true <-> qa < qb /\ qc < qd.
+Proof. exact ActuatorsXP.servo_bounds_finite. Qed.
+Print Assumptions C19_servo_bounds_partial.
+
+Example C19_servo_bounds_nonvacuous :
+  servo_bounds_accepted XNaN (XFin (180 # 1)) (XFin (544 # 1)) (XFin (2400 # 1)) = true /\
+  servo_bounds_accepted XNInf (XFin (180 # 1)) (XFin (544 # 1)) XPInf = true /\
+  servo_bounds_accepted (XFin 0) XNaN (XFin (544 # 1)) XNaN = true /\
+  servo_bounds_accepted XPInf XPInf (XFin (544 # 1)) (XFin (2400 # 1)) = false /\
+  servo_bounds_accepted (XFin 0) XNInf (XFin (544 # 1)) (XFin (2400 # 1)) = false /\
+  servo_bounds_accepted (XFin 0) (XFin (180 # 1)) (XFin (2400 # 1)) (XFin (544 # 1)) = false /\
+  servo_bounds_accepted (XFin 0) (XFin (180 # 1)) (XFin (544 # 1)) (XFin (2400 # 1)) = true.
+Proof. vm_compute. repeat split. Qed.
+Print Assumptions C19_servo_bounds_nonvacuous.
 
 (* ====================================================================== *)
 (* non-vacuity: the hypotheses above are satisfiable by non-trivial states *)
